@@ -572,6 +572,15 @@ func genC03(c *Ctx, emit func(class, op string)) {
 	for i := 0; i < c.N(60, 600); i++ {
 		emit("sibling-frames", segOp(siblingSegs(r)))
 	}
+	// long runs of other data (longer than the longest frame, longer than any plausible buffer):
+	// still ONE message each
+	for _, n := range []int{1028, 1029, 1030, 1031, 2048, 2500, 4096, 4097, 5000, 9000} {
+		segs := []seg{{'f', randFrame(r, 1+r.Intn(30))}, {'j', junkRun(r, n)}, {'f', randFrame(r, 1+r.Intn(30))}}
+		if r.Intn(2) == 0 {
+			segs = append(segs, seg{'j', junkRun(r, n+r.Intn(100))})
+		}
+		emit("long-junk-runs", segOp(segs))
+	}
 	// every frame length back to back with a one-byte junk in front
 	for _, n := range lengthsFor(c) {
 		emit("all-lengths", segOp([]seg{{'j', junkRun(r, 1)}, {'f', randFrame(r, n)}, {'f', randFrame(r, 1+r.Intn(20))}}))
@@ -791,7 +800,7 @@ func init() {
 	props["C03"] = &Prop{
 		Rule: "op streamseg: random sequences of valid frames (all lengths, payload/CRC bytes forced to 0xD3, >255-byte payloads), 0xD3-free junk runs " +
 			"(incl. one-byte runs and adjacent runs), optional truncated last frame cut at every position; expected messages computed from the segment list; " +
-			"sibling frames: same type and leading payload bytes, lengths equal (incl. verbatim repeats) or differing by 1 or by a multiple of 256; non-trivial = at least one frame segment; distinct = distinct op line",
+			"runs of other data of 1028 to 9000 bytes; sibling frames: same type and leading payload bytes, lengths equal (incl. verbatim repeats) or differing by 1 or by a multiple of 256; non-trivial = at least one frame segment; distinct = distinct op line",
 		Gen: genC03, Oracle: oracleSegs,
 		NonTrivial: func(op string, o *Obs) bool { return strings.Contains(op, " f:") },
 	}
